@@ -62,4 +62,19 @@ let run_case line =
     (match get_addr (List.init (int_of_string n) (fun i -> n_of_int i)) with
      | None -> "ctor:inv"
      | Some _ -> run_unbuffered false (split_on ',' ops) ^ "|D2:0")
+  | ["SU"; ups] ->
+    let res = ref [] in
+    let st = List.fold_left (fun st u ->
+      match String.split_on_char '/' u with
+      | [r; len] ->
+        let len = n_of_int (int_of_string len) in
+        let body = String.sub r 1 (String.length r - 1) in
+        if r.[0] = 'k' then begin
+          res := ("k" ^ body) :: !res;
+          update st { at_len = len; at_res = Some (n_of_int (int_of_string body)) } end
+        else begin
+          res := ("e" ^ body) :: !res;
+          update st { at_len = len; at_res = None } end
+      | _ -> failwith ("bad update " ^ u)) stats0 (split_on ',' ups) in
+    Printf.sprintf "R:%s|S:%s" (String.concat "," (List.rev !res)) (show_stats st)
   | _ -> "nomodel"
